@@ -201,6 +201,7 @@ func runCompScenario(sc CompScenario) compResult {
 		}
 	}
 	var cbCount, wantRunning atomic.Int32
+	var injected atomic.Bool // a child was made to exit by itself: fewer children than configured is then expected
 	cb := func() (*composite.Config[supervisor.Runnable], error) {
 		k := int(cbCount.Add(1)) - 1
 		idx := k
@@ -307,7 +308,7 @@ func runCompScenario(sc CompScenario) compResult {
 		// the composite reports Running as soon as the children's goroutines exist; a child registers as running
 		// only when its goroutine gets to call Run.  On a busy machine that can take longer than the pause above:
 		// wait (never more than 150 ms) for as many children as the configuration in force has
-		for k := 0; k < 300 && runner.GetState() == "Running"; k++ {
+		for k := 0; k < 300 && runner.GetState() == "Running" && !injected.Load(); k++ {
 			n := int32(0)
 			for _, c := range children {
 				c.mu.Lock()
@@ -369,6 +370,7 @@ func runCompScenario(sc CompScenario) compResult {
 			running := children[c].running && children[c].active == 1
 			children[c].mu.Unlock()
 			if running {
+				injected.Store(true)
 				rec.addIf(func() bool {
 					select {
 					case children[c].failCh <- o:
@@ -414,7 +416,7 @@ func runCompScenario(sc CompScenario) compResult {
 				return true
 			case <-time.After(20 * time.Millisecond):
 				_, last := rec.snapshot()
-				if time.Since(last) > 400*time.Millisecond {
+				if time.Since(last) > 1200*time.Millisecond {
 					return false
 				}
 			}
